@@ -11,7 +11,7 @@
 // The yield points are the ones the adapter mode uses (request.registered, request.got,
 // request.timeout in nats_transport.go; dispatch.* in registry.go).
 //
-// additional request fields: "transport":"nats", "sizes":[len(data) per caller; 0 = 8 bytes],
+// additional request fields: "transport":"nats", (timeouts_ms: a negative entry = SetTimeout(0)) "sizes":[len(data) per caller; 0 = 8 bytes],
 //   "share":[per caller: index of an earlier caller whose FContext (op id) it reuses, or -1],
 //   "badop":[per caller: 1 = its FContext carries a malformed _opid header],
 //   "reserve":k (the last k callers are started only after the transport has been closed),
@@ -189,6 +189,8 @@ func runNats(q req) resp {
 			to := 10000
 			if i < len(q.TimeoutsMs) && q.TimeoutsMs[i] > 0 {
 				to = q.TimeoutsMs[i]
+			} else if i < len(q.TimeoutsMs) && q.TimeoutsMs[i] < 0 {
+				to = 0 // Timeout() == 0: time.After(0) fires at once
 			}
 			c.timeout = to
 			c.ctx.SetTimeout(time.Duration(to) * time.Millisecond)
